@@ -4,7 +4,10 @@ argv: <check module> <decoder 'module:function'> <work dir> <seconds> <seed> <ma
 The raw bytes are decoded into a structured case by the check's data provider; the semantic
 oracle (the check's run_case) sits inside the target; violations are collected, not raised,
 so the campaign continues past the first one.  Results are pickled every few executions
-(libFuzzer exits the process itself, atexit handlers do not run)."""
+(libFuzzer exits the process itself, atexit handlers do not run).  -timeout=0 does NOT switch
+atheris' per-unit watchdog off (it then fires after one second of wall-clock time and ends the
+campaign silently on a loaded machine); a generous value does, and a unit that really hangs is
+bounded by the checks' own virtual-time horizon and step budgets."""
 import importlib
 import os
 import pickle
@@ -59,6 +62,6 @@ if int(shard) % 2 and hasattr(check, "seed_inputs"):
         with open(os.path.join(corpus, "seed%03d" % i), "wb") as f:
             f.write(b)
 dump()
-atheris.Setup([sys.argv[0], "-max_total_time=%s" % seconds, "-seed=%s" % seed, "-max_len=%s" % max_len, "-timeout=0",
-               "-print_final_stats=0", "-verbosity=0", corpus], TestOneInput)
+atheris.Setup([sys.argv[0], "-max_total_time=%s" % seconds, "-seed=%s" % seed, "-max_len=%s" % max_len, "-timeout=600",
+               "-artifact_prefix=%s/" % work, "-print_final_stats=0", "-verbosity=0", corpus], TestOneInput)
 atheris.Fuzz()
